@@ -131,7 +131,7 @@ func rlweEvaluatorTarget() *Target {
 	}
 
 	t := &Target{
-		Name: "rlwe.Evaluator", Envs: []string{"rlwe", "rlwe-coef", "rlwe-pow2", "bgv", "ckks"},
+		Name: "rlwe.Evaluator", Envs: []string{"rlwe", "rlwe-coef", "rlwe-pow2", "bgv", "ckks", "ckks-ci"},
 		Type:   reflect.TypeOf(&rlwe.Evaluator{}),
 		New:    newRLWEEvaluator,
 		Shared: func(e *Env) []interface{} { return []interface{}{e.Evk} },
